@@ -5,6 +5,7 @@ import pipeline
 from _rowmachine import prepare
 
 MODULE = "SynRBLModel.Properties.C06"
+HEAVY = 150  # rows given to the layouts that run in one process
 KEYS = ("reaction", "solved", "solved_by", "issue", "rules", "confidence", "input_reaction")
 
 
@@ -21,7 +22,7 @@ def layouts(ctx, inputs, nlayouts):
         bs = rng.choice([1, 2, 3, 5, 7, len(inputs) // 2 + 1, len(inputs) + 1])
         out.append(("perm bs=%s" % bs, perm, bs, rng.choice([1, 2, 4, 8, 16])))
     # one worker, one batch, in the given and in the reverse order: everything runs in this process, nothing is pickled afresh
-    n = len(inputs)
+    n = min(len(inputs), HEAVY)  # single-process layouts are slow: a prefix of the list in the thorough tier
     out.append(("one worker, one batch", list(range(n)), None, 1))
     out.append(("one worker, one batch, reversed", list(range(n))[::-1], None, 1))
     # the rejected row first and alone in its batch: a first batch that reports hardly any counter
@@ -41,7 +42,7 @@ def statement(ctx, inputs, results):
     for pos, idx in enumerate(base_perm):
         ref[idx] = key_row(base["out"][pos])
     for name, perm, tr in results[1:]:
-        if tr["out"] is None or len(tr["out"]) != len(inputs):
+        if tr["out"] is None or len(tr["out"]) != len(perm):
             ctx.violation("run-failed-or-lost-rows", {"layout": name}, str(tr["error"]), "balancing.py")
             return
         for pos, idx in enumerate(perm):
@@ -54,7 +55,7 @@ def statement(ctx, inputs, results):
                               "layout '%s' n_jobs=%s: %s vs %s" % (name, tr["n_jobs"], key_row(tr["out"][pos]), ref[idx]),
                               "synrbl/balancing.py id/index plumbing")
                 return
-        if tr["stats"] != base["stats"]:
+        if len(perm) == len(inputs) and tr["stats"] != base["stats"]:
             ctx.violation("statistics-depend-on-partition", {"layout": name}, "%s vs %s" % (tr["stats"], base["stats"]),
                           "synrbl/balancing.py:merge_stats")
             return
@@ -112,17 +113,18 @@ def explore(ctx, n, nlayouts, compare=True):
     from synrbl import Balancer
 
     obj = Balancer(n_jobs=4)
-    warm = [{"reaction": r, "id": 1000 + i} for i, r in enumerate(reversed(inputs)) if i % 2 == 0]
+    sub = list(range(min(len(inputs), HEAVY)))
+    warm = [{"reaction": inputs[i], "id": 1000 + i} for i in reversed(sub) if i % 2 == 0]
     first = pipeline.traced_run(warm, balancer=obj)
     if compare:
         pipeline.compare_trace(ctx, first)
     for rep in ("second call", "third call"):
-        tr = pipeline.traced_run(list(inputs), balancer=obj)
+        tr = pipeline.traced_run([inputs[i] for i in sub], balancer=obj)
         tr["n_jobs"] = 4
         if compare:
             pipeline.compare_trace(ctx, tr)
         ctx.count("layout:same-object-" + rep.replace(" ", "-"))
-        results.append(("same object, " + rep, list(range(len(inputs))), tr))
+        results.append(("same object, " + rep, sub, tr))
     # a machine on which the clock runs fast (every clock reading 30 s after the previous one), for the rows that never reach
     # the MCS stage (no documented wall-clock timeout applies to them): their result must not depend on elapsed time
     import faults
